@@ -5,7 +5,7 @@
 //   K in {cs,fs,hs,ds,ls}_{fb,hb,db} (nmtools::cast(raw[3][4], kind::ndarray_K); "col" = column_major_ndarray_t with the same
 //   buffer/shape types), "fixed_ndarray", "hybrid_ndarray", "dynamic_ndarray" (layout "row" only)
 //   slot 0 starts as the cast of int raw[3][4] = arange(12); slot 1 starts empty
-//   steps: ["resize",s,[shape]] ["write",s,[index],v] ["fill_ids",s,base] ["copy",dst,src] ["assign",dst,src]
+//   steps: ["resize",s,[shape]] (packed: a.resize(shape)) ["resize_v",s,[shape]] (variadic: a.resize(n0,n1,..)) ["write",s,[index],v] ["fill_ids",s,base] ["copy",dst,src] ["assign",dst,src]
 //          ["cast_kind",src,"ds_db"|...] ["cast_dtype",src,"f64"|"i64"|"i8"] ["default",s] (default-construct)
 //   response: "trace":[entry...] entry 0 = state after construction, entry k = state after step k-1;
 //   entry = {"r":true|false|"inexpressible" (resize only), "slots":[state|null, state|null], "cast":state (cast steps), "nev":events so far}
@@ -145,6 +145,36 @@ static int try_resize(Arr& a, const std::vector<size_t>& shp) {
     } else return -1;
 }
 
+// the variadic form a.resize(n0, n1, ...) (the form the committed tests use); hybrid_ndarray only with exactly dim arguments
+template <typename Arr, typename... Ns>
+using resize_v_t = decltype(std::declval<Arr&>().resize(std::declval<Ns>()...));
+template <typename Arr, typename = void, typename... Ns> struct can_resize_v : std::false_type {};
+template <typename Arr, typename... Ns> struct can_resize_v<Arr, std::void_t<resize_v_t<Arr, Ns...>>, Ns...> : std::true_type {};
+template <typename Arr, typename... Ns>
+static int call_resize_v(Arr& a, Ns... ns) {
+    if constexpr (is_legacy_hybrid<Arr>::value) {
+        if constexpr (sizeof...(Ns) != (size_t)Arr::dim_) return -1;
+        else return (bool)a.resize(ns...) ? 1 : 0;
+    } else if constexpr (can_resize_v<Arr, void, Ns...>::value) {
+        if constexpr (std::is_void_v<resize_v_t<Arr, Ns...>>) { a.resize(ns...); return 1; }
+        else if constexpr (has_shape_type<Arr>::value) {
+            // tuple (clipped) shapes: a different number of arguments does not compile (static index into the packed sizes)
+            using S = typename Arr::shape_type;
+            if constexpr (meta::is_tuple_v<S>) {
+                if constexpr (sizeof...(Ns) != (size_t)meta::len_v<S>) return -1;
+                else return (bool)a.resize(ns...) ? 1 : 0;
+            } else return (bool)a.resize(ns...) ? 1 : 0;
+        } else return (bool)a.resize(ns...) ? 1 : 0;
+    } else return -1;
+}
+template <typename Arr>
+static int try_resize_v(Arr& a, const std::vector<size_t>& s) {
+    if (s.size() == 1) return call_resize_v(a, s[0]);
+    if (s.size() == 2) return call_resize_v(a, s[0], s[1]);
+    if (s.size() == 3) return call_resize_v(a, s[0], s[1], s[2]);
+    throw std::runtime_error("resize_v arity not in the table");
+}
+
 template <typename Arr, typename K>
 static void do_cast_kind(W& w, const Arr& a, const K& kind) {
     using R = meta::resolve_optype_t<nm::cast_kind_t, Arr, K>;
@@ -197,8 +227,8 @@ static void run_hist(const J& A, W& w, Make make) {
         } else {
             if (!slot[s]) throw std::runtime_error("dead slot");
             Arr& a = *slot[s];
-            if (op == "resize") {
-                int r = try_resize(a, st[2].ivec<size_t>());
+            if (op == "resize" || op == "resize_v") {
+                int r = op == "resize" ? try_resize(a, st[2].ivec<size_t>()) : try_resize_v(a, st[2].ivec<size_t>());
                 w.key("r"); if (r < 0) w.str("inexpressible"); else w.boolean(r == 1);
             } else if (op == "write") {
                 auto idx = st[2].ivec<size_t>();
